@@ -433,6 +433,9 @@ func genC13(r *prng) *plan {
 	n := 3 + r.intn(7)
 	for i := 0; i < n; i++ {
 		p.Ops = append(p.Ops, opSpec{K: "offer", N: []int64{int64(r.intn(3)), int64(r.intn(20)), int64(r.intn(3)), int64(r.u64() >> 1)}})
+		if r.chance(20) {
+			p.Ops = append(p.Ops, opSpec{K: "multi", N: []int64{int64(r.intn(3)), int64(1 + r.intn(9)), int64(r.intn(2)), int64(r.u64() >> 1)}})
+		}
 		if r.chance(25) {
 			// the same key from two peers at once: an honest item and, arriving a little later, a corrupted
 			// one (both are accepted when no in-flight verdict exists, i.e. over version 0)
@@ -530,6 +533,32 @@ func runC13(seed uint64) {
 	for opi, op := range p.Ops {
 		rs := newPrng(uint64(op.n(3)) + 5)
 		kind := op.n(0) % 3
+		if op.K == "multi" {
+			// one offer carrying an honest item and a corrupted one under another key, in either order
+			k1, v1, _ := c13Item(rs, w1, w2, kind, 0)
+			k2, v2, _ := c13Item(rs, w1, w2, int64(rs.intn(3)), 0)
+			if k1 == nil || k2 == nil || bytes.Equal(k1, k2) {
+				continue
+			}
+			bad := mutate(rs, v2, int(op.n(1)))
+			_, whyBad := judgeState(headers, k2, bad)
+			keys, vals := [][]byte{k1, k2}, [][]byte{v1, bad}
+			if op.n(2)%2 == 1 {
+				keys, vals = [][]byte{k2, k1}, [][]byte{bad, v1}
+			}
+			w.call("offer-multi", 120*time.Second, func() error {
+				_, e := B.offerTo(V.self(), portalwire.State, vv, keys, vals)
+				return e
+			})
+			w.runFor(8 * time.Second)
+			w.op("multi#%d honest and corrupted item (mutation %d) under two keys in one offer, corrupted %s; oracle for the corrupted one: %s", opi, op.n(1), []string{"second", "first"}[op.n(2)%2], orBound(whyBad))
+			w.abstract("multi m%d o%d", op.n(1), op.n(2)%2)
+			w.probe("multi_item_offers")
+			if len(V.panics) > 0 {
+				break
+			}
+			continue
+		}
 		if op.K == "dual" {
 			key, val, _ := c13Item(rs, w1, w2, kind, 0)
 			if key == nil {
